@@ -343,10 +343,13 @@ fn run_one(sc: &Value, workdir: &Path, watchdog_ms: u64) -> Outcome1 {
             }
             s
         };
-        let cycle = if snap1 == snap2 {
-            wait_cycle(&snap2, memory)
-        } else {
-            None
+        // (the same cycle at both instants: threads outside the cycle -
+        // the scheduler polling its queue - may come and go in between)
+        let cycle = match (
+            wait_cycle(&snap1, memory), wait_cycle(&snap2, memory)
+        ) {
+            (Some(c1), Some(c2)) if c1 == c2 => Some(c2),
+            _ => None,
         };
         match cycle {
             Some(cycle) => {
